@@ -4,7 +4,7 @@ import sym
 
 CONFIGS_QUICK = ["F_def", "F_all"]  # every configuration whose cfg-gated code the property depends on
 CONFIGS_THOROUGH = ["F_def", "F_all"]
-TECHNIQUE = 'static analysis: exact value sets of byte predicates, extracted replacement and entity tables (inverse check), decision table of numeric character references'
+TECHNIQUE = 'static analysis: exact value sets of byte predicates, extracted replacement and entity tables (inverse check), decision table of numeric character references, copy discipline of unescape_with (gap, replacement, tail), provenance rule for the UTF-8 decoder tag'
 EXPLANATION = (
     "Value sets of the byte predicates of escape/partial_escape/minimal_escape (exact sets by value-set propagation "
     "over their MIR) against the promised sets; the replacement table of _escape (byte -> literal) checked to be the "
